@@ -3,6 +3,7 @@ package sym
 import (
 	"fmt"
 	"math/big"
+	"os"
 	"sort"
 	"strings"
 
@@ -44,7 +45,7 @@ func (m *Machine) NondetRange(name string, n int) int {
 	for i := range conds {
 		conds[i] = m.TT.Eq(t, m.TT.BVConst(64, uint64(i)))
 	}
-	k := m.Fork(conds)
+	k := m.forkX(conds, true)
 	m.nondets = append(m.nondets, nondetRec{name: nm, kind: "range", conc: fmt.Sprint(k)})
 	return k
 }
@@ -91,42 +92,61 @@ func (m *Machine) Assert(c *Term, label string) {
 	}
 }
 
-// decide runs the final query PC ∧ extra through the portfolio.
+// decide runs the final query PC ∧ extra through the portfolio. Each back end gets the form that suits it:
+// the Int-lowered pure bit-vector form for the bit-blasters, the mixed Int/BV form for cvc5's integer lifting.
 func (m *Machine) decide(extra *Term) (Result, map[string]*big.Int) {
-	asserts := make([]*Term, 0, len(m.pc)+1)
-	asserts = append(asserts, m.pc...)
-	asserts = append(asserts, extra)
-	var want []*Term
-	for _, n := range m.nondets {
-		if n.term != nil {
-			want = append(want, n.term)
+	build := func(low bool) ([]*Term, []*Term) {
+		asserts := make([]*Term, 0, len(m.pc)+1)
+		f := func(t *Term) *Term {
+			if low {
+				return m.lowerTerm(t)
+			}
+			return t
 		}
+		for _, c := range m.pc {
+			asserts = append(asserts, f(c))
+		}
+		asserts = append(asserts, f(extra))
+		var want []*Term
+		for _, n := range m.nondets {
+			if n.term != nil {
+				if low {
+					want = append(want, m.wantTermLow(n.term))
+				} else {
+					want = append(want, n.term)
+				}
+			}
+		}
+		return asserts, want
 	}
 	var res Result = Unknown
 	var model map[string]*big.Int
-	for i, s := range m.extra {
+	run := func(i int, needModel bool) (Result, map[string]*big.Int) {
+		s := m.extra[i]
+		asserts, want := build(m.extraLow[i])
+		if !needModel {
+			want = nil
+		}
 		t0 := s.Time
 		r, mod := s.CheckStandalone(m.TT, asserts, want)
 		m.Sh.mu.Lock()
 		m.Sh.Stats.SolverTime[s.B.Name] += s.Time - t0
 		m.Sh.Stats.SolverCalls[s.B.Name]++
 		m.Sh.mu.Unlock()
+		return r, mod
+	}
+	for i := range m.extra {
+		r, mod := run(i, true)
 		if r == Unknown {
 			continue
 		}
 		res, model = r, mod
-		if r == Unsat && m.Spec.Confirm && i+1 < len(m.extra) {
-			// confirm with the next back end that answers
-			for _, s2 := range m.extra[i+1:] {
-				t1 := s2.Time
-				r2, _ := s2.CheckStandalone(m.TT, asserts, nil)
-				m.Sh.mu.Lock()
-				m.Sh.Stats.SolverTime[s2.B.Name] += s2.Time - t1
-				m.Sh.Stats.SolverCalls[s2.B.Name]++
-				m.Sh.mu.Unlock()
+		if r == Unsat && m.Spec.Confirm {
+			for j := i + 1; j < len(m.extra); j++ {
+				r2, _ := run(j, false)
 				if r2 == Sat {
 					m.Sh.mu.Lock()
-					m.Sh.Incon["solver disagreement ("+s.B.Name+" unsat, "+s2.B.Name+" sat)"]++
+					m.Sh.Incon["solver disagreement ("+m.extra[i].B.Name+" unsat, "+m.extra[j].B.Name+" sat)"]++
 					m.Sh.mu.Unlock()
 					return Unknown, nil
 				}
@@ -136,6 +156,25 @@ func (m *Machine) decide(extra *Term) (Result, map[string]*big.Int) {
 			}
 		}
 		break
+	}
+	if res == Unknown && os.Getenv("GOSMT_DUMP") != "" {
+		for i, s := range m.extra {
+			asserts, _ := build(m.extraLow[i])
+			f, err := os.Create(fmt.Sprintf("%s/unknown-%d-%s.smt2", os.Getenv("GOSMT_DUMP"), m.Sh.Stats.Obligations, s.B.Name))
+			if err == nil {
+				sv := s.Log
+				s.Log = f
+				s.Reset()
+				for _, a := range asserts {
+					s.Assert(m.TT, a)
+				}
+				s.send("(check-sat)")
+				s.in.Flush()
+				s.Log = sv
+				f.Close()
+				s.dead = true
+			}
+		}
 	}
 	return res, model
 }
@@ -155,8 +194,8 @@ func (m *Machine) reportViolation(label string, model map[string]*big.Int) {
 		e := ReplayEntry{Name: n.name, Kind: n.kind}
 		if n.term == nil {
 			e.Value = n.conc
-		} else if model != nil && model[n.term.Name] != nil {
-			e.Value = model[n.term.Name].String()
+		} else if mv := m.modelValue(model, n.term); mv != nil {
+			e.Value = mv.String()
 		} else {
 			e.Value = "0"
 		}
@@ -245,6 +284,7 @@ func (m *Machine) apiCall(name string, fr *frame, args []Value, call *ssa.CallCo
 			panic(m.unsupported("nondetBig with symbolic bits"))
 		}
 		t := m.Nondet(m.str(args[0]), IntSort, "int")
+		m.lw.Bounds[t.Name] = int(bits)
 		lim := tt.IntConst(new(big.Int).Lsh(big.NewInt(1), uint(bits)))
 		m.Assume(tt.And(tt.ILt(tt.INeg(lim), t), tt.ILt(t, lim)))
 		c := m.newCell(m.bigIntType())
@@ -333,4 +373,34 @@ func (sh *Shared) SortedIncon() []string {
 	}
 	sort.Strings(r)
 	return r
+}
+
+// wantTerm is the solver-side symbol whose model value is needed for a nondet.
+func (m *Machine) wantTermLow(t *Term) *Term {
+	if t.S.K == SInt {
+		if b, ok := m.lw.Bounds[t.Name]; ok {
+			return m.TT.Sym(lowName(t.Name), BV(b+1))
+		}
+	}
+	return t
+}
+
+func (m *Machine) modelValue(model map[string]*big.Int, t *Term) *big.Int {
+	if model == nil {
+		return nil
+	}
+	if t.S.K == SInt {
+		if b, ok := m.lw.Bounds[t.Name]; ok {
+			v := model[lowName(t.Name)]
+			if v == nil {
+				return model[t.Name]
+			}
+			// signed interpretation of a (b+1)-bit value
+			if v.Bit(b) == 1 {
+				return new(big.Int).Sub(v, new(big.Int).Lsh(big.NewInt(1), uint(b+1)))
+			}
+			return v
+		}
+	}
+	return model[t.Name]
 }
